@@ -19,10 +19,12 @@ PROP = 'C19'
 BASES = {
     'defaults-by-ref': (
         'AUTOMATIC TAGS',
-        [('A', 'SEQUENCE { b B DEFAULT TRUE, i I DEFAULT 5, e E DEFAULT two, o O DEFAULT \'0102\'H, '
-               'bs BS DEFAULT { one }, z INTEGER (0..7) }'),
-         ('B', 'BOOLEAN'), ('I', 'INTEGER (0..20)'), ('E', 'ENUMERATED { one, two }'), ('O', 'OCTET STRING (SIZE(0..2))'),
-         ('BS', 'BIT STRING { one(1), three(3) }')]),
+        [('A', 'SEQUENCE { b B DEFAULT TRUE, i I DEFAULT 5, e E DEFAULT two, z INTEGER (0..7) }'),
+         ('B', 'BOOLEAN'), ('I', 'INTEGER (0..20)'), ('E', 'ENUMERATED { one, two }')]),
+    'defaults-by-ref-2': (
+        'AUTOMATIC TAGS',
+        [('A', 'SEQUENCE { o O DEFAULT \'0102\'H, bs BS DEFAULT { one }, f B DEFAULT FALSE }'),
+         ('B', 'BOOLEAN'), ('O', 'OCTET STRING (SIZE(0..2))'), ('BS', 'BIT STRING { one(1), three(3) }')]),
     'optional-by-ref': (
         'AUTOMATIC TAGS',
         [('A', 'SEQUENCE { p P OPTIONAL, q SEQUENCE (SIZE(0..2)) OF P, c C, ..., x P }'),
